@@ -19,7 +19,21 @@ import (
 func labelBody(r *core.Rand, n int) string {
 	// n "units"; what a unit is depends on the flavour
 	var sb strings.Builder
-	switch r.Intn(6) {
+	switch r.Intn(7) {
+	case 6: // one or two characters per line: hundreds of line endings (and, inside a container,
+		// hundreds of continuation prefixes that are inside the label's source span but not in the label)
+		for sb.Len() < n {
+			sb.WriteString([]string{"a\n", "bc\n", "é\n"}[r.Intn(3)])
+		}
+		b := []byte(sb.String())
+		for len(b) > n || b[len(b)-1] == '\n' || b[len(b)-1]&0xc0 == 0x80 && false {
+			b = b[:len(b)-1]
+		}
+		for len(b) > 0 && (b[len(b)-1] == '\n' || b[len(b)-1] >= 0x80) {
+			b = b[:len(b)-1]
+		}
+		sb.Reset()
+		sb.Write(b)
 	case 0: // plain ASCII
 		sb.WriteString(strings.Repeat("a", n))
 	case 1: // two-byte characters: bytes = 2 x characters
@@ -68,7 +82,10 @@ func limitsDoc(r *core.Rand) (string, string) {
 		use = strings.ReplaceAll(use, "%s", l)
 		def := "[" + l + "]: /u 't'"
 		var doc string
-		switch r.Intn(4) {
+		switch r.Intn(6) {
+		case 4, 5:
+			// no blank line anywhere (the list-item transformation of C09 needs that)
+			doc = def + "\n" + use + "\n"
 		case 0:
 			doc = def + "\n\n" + use + "\n"
 		case 1:
